@@ -42,6 +42,11 @@ type MitigationParams struct {
 	// SeqAdv: the third event behind the marker is a seqno-advanced event (collection-filtered streams) instead of
 	// a document: it waits at the gate like a document and is absorbed (moves the position) only once covered
 	SeqAdv bool `json:"seq_adv"`
+	// StaleSession (with EpochAssign): a first session is closed by a Rebalance() while its rollback mitigation
+	// is still loading the fail-over logs (slow answer); the scenario then runs in the session the rebalance
+	// opens. What is left of the closed session works from the cluster map of ITS time and must not feed the
+	// thresholds of the new one
+	StaleSession bool `json:"stale_session"`
 }
 
 // persistence feeds of one copy (uA = the branch the stream was opened on, uB = another branch)
@@ -97,6 +102,8 @@ func init() {
 				{Scenario: "c07_gate", Params: mustJSON(MitigationParams{Replicas: 1, TransientEnd: true, RollbackAtEnd: true}), Bound: b - 1, Shards: 8, Note: "the re-open is answered with a rollback: what the copies reported before it still counts (they may never report again)"},
 				{Scenario: "c07_gate", Params: mustJSON(MitigationParams{Replicas: 1, CloseAt: true, SeqAdv: true}), Bound: b - 1, Shards: 8, Note: "a seqno-advanced event waits at the gate when the stream is closed: it is released without being absorbed"},
 				{Scenario: "c07_gate", Params: mustJSON(MitigationParams{Replicas: 1, SeqAdv: true}), Bound: b - 1, Shards: 8, Note: "a seqno-advanced event behind two documents: absorbed only once covered"},
+				{Scenario: "c07_gate", Params: mustJSON(MitigationParams{Replicas: 1, EpochAssign: true, StaleSession: true}), Bound: 0, Shards: 8, Note: "the session that follows a Rebalance() which closed the first one while its rollback mitigation was still loading fail-over logs; a copy becomes listed afterwards: what is left of the closed session knows the old map only and must stay silent"},
+				{Scenario: "c07_gate", Params: mustJSON(MitigationParams{Replicas: 2, EpochAssign: true, Grow: true, StaleSession: true}), Bound: 0, Shards: 16, Note: "the same with an ADDITIONAL copy listed afterwards"},
 				{Scenario: "c07_rebalance", Params: mustJSON(struct{}{}), Bound: 0, Note: "the session after a real Rebalance() with a slow re-open and copies that keep reporting the same figures"},
 				{Scenario: "c07_gate", Params: mustJSON(MitigationParams{Replicas: 1, Stall: true}), Bound: 0, Shards: 8, Note: "the DCP thread stalls for two observe intervals at every scheduling point (lost wake-up between the gate's check and its wait)"},
 			}
@@ -355,7 +362,27 @@ func gateMain(p MitigationParams) {
 		sampleThreshold("at delivery")
 	}
 	vrt.Window(true)
-	e.Stream.Open()
+	if p.StaleSession {
+		slowLoad := true
+		c.Fault = func(r *gocbcore.SimRequest) gocbcore.SimAnswer {
+			if slowLoad && r.Kind == "failoverlog" {
+				return gocbcore.SimAnswer{Kind: "latedelay", Delay: 8 * time.Second}
+			}
+			return gocbcore.SimAnswer{}
+		}
+		e.Stream.Open()
+		vrt.Sleep(time.Second)
+		slowLoad = false
+		e.Stream.Rebalance() // closes the session now, opens the next one after the rebalance delay
+		vrt.Sleep(o.RebalanceDelay + 10*time.Second)
+		vrt.Quiesce()
+		if !c.StreamOpen(0) {
+			vrt.Failf("harness: vb0 is not streamed after the rebalance")
+			return
+		}
+	} else {
+		e.Stream.Open()
+	}
 	interval := e.Cfg.RollbackMitigation.Interval
 	if p.Stall {
 		k := vrt.Choose(90, true, "stall-at-point")
